@@ -152,7 +152,9 @@ coverage resolution, the error behaviour — for every map object that is `Ok`
                                   the evaluated counterexamples; NEW: `or` is wrong too whenever
                                   the sentinel is not 0 (e.g. the default int64 sentinel)
   api_degrade_error_range, api_degrade_ok_iff, api_degrade_rejects, api_degrade_weight_errors
-                                  errors -/
+                                  errors
+  api_degrade_float_cells_exact   the `inexact` guard: no `.rat` / `.sqrtRat` / `.poison` cell is
+                                  ever reduced (regression example `exThirds`) -/
 
 section api
 open ApiDegrade
@@ -613,6 +615,22 @@ theorem api_degrade_ok_iff {m : MapObj} {ordOut : Nat} {red : String} {w : Optio
         (isAndOr red = true ∨ cellsFitF64 m.st.sp = true) :=
   apiDegrade_inrange_isOk_iff h.1 h.2.1.blankInvalid hlo hlt
 
+/-- **the `inexact` guard**: a float reduction (anything but `and` / `or`) that succeeds at or
+    above the coverage resolution has met no `.rat` / `.sqrtRat` / `.poison` cell — the results
+    of an earlier non-dyadic `mean` / `std` / `wmean`, which `Val.numD` cannot read — at any valid
+    pixel: a chained degrade is discarded (`inexact`), never mispredicted -/
+theorem api_degrade_float_cells_exact {m m' : MapObj} {ordOut : Nat} {red : String}
+    {w : Option MapObj} (h : m.Ok) (hlo : m.covord ≤ ordOut) (hlt : ordOut < m.spord)
+    (hao : isAndOr red = false) (hr : apiDegrade m ordOut red w = .ok m') (p : Nat)
+    (hval : m.vc.valid (m.abs p) = true) : Val.reducible (m.abs p) = true := by
+  have hfit : cellsFitF64 m.st.sp = true := by
+    rcases ((api_degrade_ok_iff h hlo hlt).1 ⟨m', hr⟩).2.2 with h1 | h1
+    · rw [hao] at h1; cases h1
+    · exact h1
+  rcases abs_mem_or_sentinel m p with hm | hs
+  · exact cellsFitF64_reducible hfit hm
+  · rw [hs, h.2.1.blankInvalid] at hval; cases hval
+
 /-- on every path (`ordOut < spord`): a reduction the kind does not accept, a `wmean` without
     weights, with a weight map that is not floating point, or of another sparse resolution, is
     an error -/
@@ -925,16 +943,18 @@ example : okAnd exFlt (fun m =>
       | .error .value => true | _ => false)) = true := by
   decide +kernel
 
-/-! ### a case the model's guards do not catch (a defect of the MODEL, not of the library)
+/-! ### regression: a chained degrade is discarded, not mispredicted
 
-The float path reads every cell through `Val.numD` (`api_degrade_float`: `(m.abs p).numD`), which
-is the value for `.num` / `.bool` cells only: a `.rat` / `.sqrtRat` cell — what an earlier `mean`,
-`std` or `wmean` degrade leaves when the result is not dyadic — is read as 0, and `cellsFitF64`
-lets such cells pass instead of answering `inexact`.  So a CHAINED degrade is wrong in the model
-(the library simply computes with the float): below, the mean map holds 4/3 at pixel 0; its `sum`
-degrade answers 0 (library: 1.333…), and degrading it below the coverage resolution raises
-ValueError (re-housing checks the cell type; the library succeeds).  The C07 generator never
-degrades a degraded map, so the harness does not meet this. -/
+HISTORY.  The float path reads every cell through `Val.numD` (`api_degrade_float`:
+`(m.abs p).numD`), which is the value for `.num` / `.bool` cells only.  A first version of
+`cellsFitF64` let the `.rat` / `.sqrtRat` / `.poison` cells pass that an earlier `mean`, `std` or
+`wmean` degrade leaves when the result is not dyadic, so a CHAINED in-range degrade read them as 0
+(mean map holding 4/3, then `sum`: model 0, library 1.333…).  The guard now answers `inexact` on
+such cells (`api_degrade_float_cells_exact`: a successful float reduction at or above the coverage
+resolution never meets one), and the example below is the regression.  What remains: BELOW the
+coverage resolution the same map still raises ValueError in the model — re-housing checks the cell
+type (`valMatchesKind` rejects `.rat`) before `_degrade` reaches the guard — where the library
+succeeds.  The C07 generator never degrades a degraded map. -/
 
 /-- the `mean` degrade (order 3 → 2) of a float64 map with the values 1, 1, 2 under coarse pixel 0 -/
 def exThirds : Except Err MapObj :=
@@ -943,8 +963,10 @@ def exThirds : Except Err MapObj :=
       apiDegrade m 2 "mean" none
 
 example : okAnd exThirds (fun d => decide d.Ok && decide (d.abs 0 = .rat 4 3) &&
-    cellsFitF64 d.st.sp && decide (validChildren d 1 0 = [0]) &&
-    okAnd (apiDegrade d 1 "sum" none) (fun f => decide (f.abs 0 = .num 0 0)) &&
+    !cellsFitF64 d.st.sp && decide (validChildren d 1 0 = [0]) &&
+    (match apiDegrade d 1 "sum" none with | .error .inexact => true | _ => false) &&
+    (match apiDegrade d 1 "and" none with | .error .value => true | _ => false) &&
+    okAnd (apiDegrade d 2 "sum" none) (fun f => decide (f.abs 0 = .rat 4 3)) &&
     (match apiDegrade d 0 "sum" none with | .error .value => true | _ => false)) = true := by
   decide +kernel
 
